@@ -269,6 +269,7 @@ class JobServerSemaphore:
             while self.__waitersCnt:
                 self.__tokens.append(os.read(self.__fds[0], 1))
                 self.__waitersCnt -= 1
+                self.__acquired += 1
                 self.__sem.release()
         except BlockingIOError:
             pass
@@ -288,7 +289,8 @@ class JobServerSemaphore:
                     JobServerSemaphore.jobavailableCallback, self)
             self.__waitersCnt += 1
             await self.__sem.acquire()
-            pass
+            # The job slot was already accounted for by whoever woke us up.
+            return
         self.__acquired += 1
 
     async def __aenter__(self):
@@ -299,6 +301,8 @@ class JobServerSemaphore:
         if self.__acquired == 0:
             raise ValueError ("BoundedSemaphore released too many times")
         if self.__waitersCnt != 0:
+           # Hand over our job slot directly to a waiter. The number of
+           # acquired slots stays the same.
            self.__waitersCnt -= 1;
            self.__sem.release()
            if self.__waitersCnt == 0:
@@ -306,7 +310,7 @@ class JobServerSemaphore:
         else:
             if not self.__recursive or self.__acquired > 1:
                 os.write(self.__fds[1], self.__tokens.pop())
-        self.__acquired -= 1
+            self.__acquired -= 1
 
     async def __aexit__(self, exc_type, exc, tb):
         self.release()
